@@ -339,6 +339,11 @@ def _pool_init(env):
 
     logging.disable(logging.CRITICAL)
     enter_worker_dir()
+    import faulthandler
+
+    faulthandler.enable(file=open(os.path.join(scratch_root(), f"crash-{os.getpid()}.txt"), "w"), all_threads=True)
+    if os.environ.get("VERIF_DEBUG"):
+        faulthandler.dump_traceback_later(int(os.environ.get("VERIF_DEBUG_AFTER", "20")), repeat=True, file=open(f"/tmp/verif-worker-{os.getpid()}.txt", "w"))
     if not os.environ.get("VERIF_DEBUG"):
         # native wpilib / ntcore code prints start-up chatter straight to fd 1 / fd 2
         dn = os.open(os.devnull, os.O_WRONLY)
@@ -371,36 +376,63 @@ def nworkers():
 
 
 class WorkerPool:
-    """Spawned worker processes (never forked: HAL and ntcore own threads), reusable for several rounds."""
+    """Spawned worker processes (never forked: HAL and ntcore own threads), reusable for several rounds.
+    A worker that dies (native crash) breaks the pool and is reported as a harness error instead of a hang."""
 
     def __init__(self, workers=None, maxtasksperchild=None):
         import multiprocessing as mp
+        from concurrent.futures import ProcessPoolExecutor
 
         env = {k: v for k, v in os.environ.items() if k.startswith("VERIF_") or k in ("PYTHONPYCACHEPREFIX", "PYTHONHASHSEED")}
         scratch_root()
         env["VERIF_SCRATCH"] = os.environ["VERIF_SCRATCH"]
         env["VERIF_SCRATCH_OWNER"] = os.environ["VERIF_SCRATCH_OWNER"]
         self.n = workers or nworkers()
-        self.pool = mp.get_context("spawn").Pool(self.n, initializer=_pool_init, initargs=(env,), maxtasksperchild=maxtasksperchild)
+        self.pool = ProcessPoolExecutor(self.n, mp_context=mp.get_context("spawn"), initializer=_pool_init, initargs=(env,))
 
     def run(self, modname, fname, items, seed=0, weight=None):
         """Run modname.fname(item) for every item; the seed only permutes the work order.  Yields results."""
         import random
+        from concurrent.futures import as_completed
+        from concurrent.futures.process import BrokenProcessPool
 
         items = list(items)
         order = list(range(len(items)))
         random.Random(seed).shuffle(order)
         if weight is not None:
             order.sort(key=lambda i: -weight(items[i]))  # heaviest first; the seed permutes ties
-        for status, out in self.pool.imap_unordered(_pool_call, [(modname, fname, items[i]) for i in order]):
-            if status != "ok":
-                self.pool.terminate()
-                raise HarnessError(out)
-            yield out
+        futs = {self.pool.submit(_pool_call, (modname, fname, items[i])): i for i in order}
+        try:
+            for f in as_completed(futs):
+                status, out = f.result()
+                if status != "ok":
+                    raise HarnessError(out)
+                yield out
+        except BrokenProcessPool as e:
+            pending = [futs[f] for f in futs if not f.done() or f.exception() is not None]
+            dumps = ""
+            import glob
+
+            for fn in glob.glob(os.path.join(scratch_root(), "crash-*.txt")):
+                txt = open(fn).read()
+                if txt.strip():
+                    dumps += f"\n--- {os.path.basename(fn)} ---\n{txt[:3000]}"
+            e = f"{e}{dumps}"
+            raise HarnessError(f"a worker process died while running {modname}.{fname} (native crash?); unfinished items: {[repr(items[i])[:200] for i in pending[:3]]} ... {e}")
 
     def close(self):
-        self.pool.terminate()
-        self.pool.join()
+        procs = list((getattr(self.pool, "_processes", None) or {}).values())
+        self.pool.shutdown(wait=False, cancel_futures=True)
+        for p in procs:  # workers own native threads (HAL, ntcore): do not wait for a clean interpreter exit
+            try:
+                p.kill()
+            except Exception:
+                pass
+        for p in procs:
+            try:
+                p.join(5)
+            except Exception:
+                pass
 
     def __enter__(self):
         return self
